@@ -1,3 +1,434 @@
 package main
 
-func bufioRun() {}
+import (
+	"bufio"
+	"encoding/json"
+	"io"
+
+	"github.com/bfenetworks/bfe/bfe_bufio"
+
+	"verifharness/vh"
+)
+
+const bufSize = 16 // B of specs/Util (the minimum reader buffer of both libraries)
+
+type bufOp struct {
+	Op   string `json:"op"`
+	A    int    `json:"a"`
+	Ch   int    `json:"ch"`
+	E    bool   `json:"e"`
+	Xpos *int   `json:"xpos"`
+	Xbuf *int   `json:"xbuf"`
+	Xn   *int   `json:"xn"`
+}
+
+type bufCase struct {
+	ID     int     `json:"id"`
+	Kind   string  `json:"kind"` // "r" | "w"
+	S      []int   `json:"s"`
+	Chunks []int   `json:"chunks"`
+	Eofd   bool    `json:"eofd"`
+	Urf    bool    `json:"urf"`
+	Ops    []bufOp `json:"ops"`
+}
+
+var symByte = []byte{'x', '\r', '\n'}
+
+func toSyms(b []byte) []int {
+	out := make([]int, len(b))
+	for i, c := range b {
+		switch c {
+		case 'x':
+			out[i] = 0
+		case '\r':
+			out[i] = 1
+		case '\n':
+			out[i] = 2
+		default:
+			out[i] = 9
+		}
+	}
+	return out
+}
+
+func toInts(b []byte) []int {
+	out := make([]int, len(b))
+	for i, c := range b {
+		out[i] = int(c)
+	}
+	return out
+}
+
+// chunkSrc is the underlying reader of the spec: at most chunks[nr] bytes per call,
+// io.EOF together with the last bytes iff eofd, (0, nil) for an empty p.
+type chunkSrc struct {
+	data   []byte
+	off    int
+	chunks []int
+	nr     int
+	eofd   bool
+}
+
+func (s *chunkSrc) Read(p []byte) (int, error) {
+	if len(p) == 0 {
+		return 0, nil
+	}
+	if s.off >= len(s.data) {
+		return 0, io.EOF
+	}
+	n := len(p)
+	if c := s.chunks[s.nr%len(s.chunks)]; c < n {
+		n = c
+	}
+	if r := len(s.data) - s.off; r < n {
+		n = r
+	}
+	copy(p, s.data[s.off:s.off+n])
+	s.off += n
+	s.nr++
+	if s.eofd && s.off == len(s.data) {
+		return n, io.EOF
+	}
+	return n, nil
+}
+
+type chunkSrcWT struct{ *chunkSrc }
+
+func (s chunkSrcWT) WriteTo(w io.Writer) (int64, error) {
+	n, err := w.Write(s.data[s.off:])
+	s.off += n
+	return int64(n), err
+}
+
+type sink struct{ b []byte }
+
+func (s *sink) Write(p []byte) (int, error) { s.b = append(s.b, p...); return len(p), nil }
+
+type sinkRF struct{ sink }
+
+func (s *sinkRF) ReadFrom(r io.Reader) (int64, error) {
+	var n int64
+	buf := make([]byte, 7)
+	for {
+		m, err := r.Read(buf)
+		s.b = append(s.b, buf[:m]...)
+		n += int64(m)
+		if err == io.EOF {
+			return n, nil
+		}
+		if err != nil {
+			return n, err
+		}
+	}
+}
+
+type rdr interface {
+	io.Reader
+	io.ByteScanner
+	io.RuneScanner
+	io.WriterTo
+	ReadSlice(byte) ([]byte, error)
+	ReadLine() ([]byte, bool, error)
+	ReadBytes(byte) ([]byte, error)
+	ReadString(byte) (string, error)
+	Peek(int) ([]byte, error)
+	Buffered() int
+}
+
+type wtr interface {
+	io.Writer
+	io.ByteWriter
+	io.StringWriter
+	io.ReaderFrom
+	WriteRune(rune) (int, error)
+	Flush() error
+	Buffered() int
+}
+
+func errCode(err error) int {
+	switch err {
+	case nil:
+		return 0
+	case io.EOF:
+		return 1
+	case bfe_bufio.ErrBufferFull, bufio.ErrBufferFull:
+		return 2
+	case bfe_bufio.ErrInvalidUnreadByte, bufio.ErrInvalidUnreadByte:
+		return 3
+	case bfe_bufio.ErrInvalidUnreadRune, bufio.ErrInvalidUnreadRune:
+		return 4
+	}
+	return 9
+}
+
+type bufEv struct {
+	Cid   int    `json:"cid"`
+	Ev    string `json:"ev"`
+	A     int    `json:"a"`
+	N     int    `json:"n"`
+	Data  []int  `json:"data"`
+	Err   int    `json:"err"`
+	Pfx   bool   `json:"pfx"`
+	Delta []int  `json:"delta"`
+	Tot   int    `json:"tot"`
+	Buf   int    `json:"buf"`
+	Det   string `json:"detail,omitempty"`
+}
+
+func mkSrc(c *bufCase, data []byte) io.Reader {
+	src := &chunkSrc{data: data, chunks: c.Chunks, eofd: c.Eofd}
+	for _, o := range c.Ops {
+		if o.Op == "writeto" {
+			if o.A == 1 {
+				return chunkSrcWT{src}
+			}
+			break
+		}
+	}
+	return src
+}
+
+// runReader executes the script on one library; returns the events.
+func runReader(c *bufCase, cid int, std bool) []bufEv {
+	data := make([]byte, len(c.S))
+	for i, s := range c.S {
+		data[i] = symByte[s]
+	}
+	var r rdr
+	var br *bfe_bufio.Reader
+	if std {
+		r = bufio.NewReaderSize(mkSrc(c, data), bufSize)
+	} else {
+		br = bfe_bufio.NewReaderSize(mkSrc(c, data), bufSize)
+		r = br
+	}
+	var evs []bufEv
+	for i, op := range c.Ops {
+		ev := bufEv{Cid: cid, Ev: op.Op, A: op.A, Data: []int{}, Delta: []int{}, Tot: -1}
+		p := vh.Guard(func() {
+			var err error
+			switch op.Op {
+			case "read":
+				buf := make([]byte, op.A)
+				var n int
+				n, err = r.Read(buf)
+				ev.N = n
+				if n >= 0 && n <= len(buf) {
+					ev.Data = toSyms(buf[:n])
+				}
+			case "readbyte":
+				var b byte
+				b, err = r.ReadByte()
+				if err == nil {
+					ev.N, ev.Data = 1, toSyms([]byte{b})
+				}
+			case "readrune":
+				var ru rune
+				var size int
+				ru, size, err = r.ReadRune()
+				if err == nil {
+					ev.N = size
+					if ru >= 0 && ru < 128 {
+						ev.Data = toSyms([]byte{byte(ru)})
+					} else {
+						ev.Data = []int{9}
+					}
+				}
+			case "unreadbyte":
+				err = r.UnreadByte()
+			case "unreadrune":
+				err = r.UnreadRune()
+			case "readslice":
+				var line []byte
+				line, err = r.ReadSlice(symByte[op.A])
+				ev.N, ev.Data = len(line), toSyms(line)
+			case "readbytes":
+				var line []byte
+				if i%2 == 0 {
+					line, err = r.ReadBytes(symByte[op.A])
+				} else {
+					var s string
+					s, err = r.ReadString(symByte[op.A])
+					line = []byte(s)
+				}
+				ev.N, ev.Data = len(line), toSyms(line)
+			case "readline":
+				var line []byte
+				line, ev.Pfx, err = r.ReadLine()
+				ev.N, ev.Data = len(line), toSyms(line)
+			case "peek":
+				var line []byte
+				line, err = r.Peek(op.A)
+				ev.N, ev.Data = len(line), toSyms(line)
+			case "writeto":
+				var sk sink
+				var n int64
+				n, err = r.WriteTo(&sk)
+				ev.N, ev.Data = int(n), toSyms(sk.b)
+			}
+			ev.Err = errCode(err)
+			if ev.Err == 9 {
+				ev.Det = err.Error()
+			}
+			ev.Buf = r.Buffered()
+			if br != nil {
+				ev.Tot = br.TotalRead
+			}
+		})
+		if p != "" {
+			ev.Err, ev.Det = -1, p
+			evs = append(evs, ev)
+			break
+		}
+		evs = append(evs, ev)
+	}
+	return evs
+}
+
+func runWriter(c *bufCase, cid int, std bool) []bufEv {
+	var under *sink
+	var uw io.Writer
+	if c.Urf {
+		s := &sinkRF{}
+		under, uw = &s.sink, s
+	} else {
+		under = &sink{}
+		uw = under
+	}
+	var w wtr
+	var bw *bfe_bufio.Writer
+	if std {
+		w = bufio.NewWriterSize(uw, bufSize)
+	} else {
+		bw = bfe_bufio.NewWriterSize(uw, bufSize)
+		w = bw
+	}
+	count := 0
+	next := func(n int) []byte {
+		b := make([]byte, n)
+		for i := range b {
+			b[i] = byte(1 + count%100)
+			count++
+		}
+		return b
+	}
+	var evs []bufEv
+	for i, op := range c.Ops {
+		ev := bufEv{Cid: cid, Ev: op.Op, A: op.A, Data: []int{}, Delta: []int{}, Tot: -1}
+		before := len(under.b)
+		p := vh.Guard(func() {
+			var err error
+			switch op.Op {
+			case "write":
+				d := next(op.A)
+				ev.Data = toInts(d)
+				ev.N, err = w.Write(d)
+			case "writestring":
+				d := next(op.A)
+				ev.Data = toInts(d)
+				ev.N, err = w.WriteString(string(d))
+			case "writebyte":
+				d := next(1)
+				ev.Data = toInts(d)
+				if i%2 == 0 {
+					err = w.WriteByte(d[0])
+					if err == nil {
+						ev.N = 1
+					}
+				} else {
+					ev.N, err = w.WriteRune(rune(d[0]))
+				}
+			case "flush":
+				err = w.Flush()
+			case "readfrom":
+				d := next(op.A)
+				ev.Data = toInts(d)
+				var n int64
+				n, err = w.ReadFrom(&chunkSrc{data: d, chunks: []int{op.Ch}, eofd: op.E})
+				ev.N = int(n)
+			}
+			ev.Err = errCode(err)
+			if ev.Err == 9 {
+				ev.Det = err.Error()
+			}
+			ev.Buf = w.Buffered()
+			if bw != nil {
+				ev.Tot = bw.TotalWrite
+			}
+		})
+		if len(under.b) >= before {
+			ev.Delta = toInts(under.b[before:])
+		}
+		if p != "" {
+			ev.Err, ev.Det = -1, p
+			evs = append(evs, ev)
+			break
+		}
+		evs = append(evs, ev)
+	}
+	return evs
+}
+
+func sameReply(a, b *bufEv) bool {
+	if a.N != b.N || a.Err != b.Err || a.Pfx != b.Pfx || len(a.Data) != len(b.Data) {
+		return false
+	}
+	for i := range a.Data {
+		if a.Data[i] != b.Data[i] {
+			return false
+		}
+	}
+	return true
+}
+
+// bufioRun: every case is executed on bfe_bufio (cid = 2*id) and on std bufio (cid = 2*id+1).
+func bufioRun() {
+	cases, drift, stdDiff := 0, 0, 0
+	var driftEx, stdDiffEx []string
+	vh.EachCase(func(line []byte) {
+		var c bufCase
+		if err := json.Unmarshal(line, &c); err != nil {
+			vh.Emit(map[string]interface{}{"_bad_case": err.Error()})
+			return
+		}
+		cases++
+		var a, b []bufEv
+		if c.Kind == "w" {
+			a, b = runWriter(&c, 2*c.ID, false), runWriter(&c, 2*c.ID+1, true)
+		} else {
+			a, b = runReader(&c, 2*c.ID, false), runReader(&c, 2*c.ID+1, true)
+		}
+		for i := range a {
+			op := c.Ops[i]
+			x := op.Xbuf
+			if c.Kind == "w" {
+				x = op.Xn
+			}
+			if x != nil && a[i].Err >= 0 && *x != a[i].Buf {
+				drift++
+				if len(driftEx) < 3 {
+					driftEx = append(driftEx, op.Op)
+				}
+			}
+			if i < len(b) && !sameReply(&a[i], &b[i]) {
+				stdDiff++
+				if len(stdDiffEx) < 5 {
+					stdDiffEx = append(stdDiffEx, op.Op)
+				}
+				break
+			}
+		}
+		s := c.S
+		if s == nil {
+			s = []int{}
+		}
+		for k, evs := range [][]bufEv{a, b} {
+			vh.Emit(map[string]interface{}{"cid": 2*c.ID + k, "ev": "new", "kind": c.Kind, "s": s})
+			for i := range evs {
+				vh.Emit(&evs[i])
+			}
+		}
+	})
+	vh.Emit(map[string]interface{}{"summary": true, "cases": cases, "drift": drift, "drift_examples": driftEx,
+		"std_diff": stdDiff, "std_diff_examples": stdDiffEx})
+}
